@@ -13,7 +13,7 @@ ASSUMPTIONS = ["reference BIP32 in vf/ref/bip32.py, self-tested on BIP32 test ve
 NSHARDS = {"quick": 32, "thorough": 64}
 BUDGET_S = {"quick": 200, "thorough": 1800}
 MIN_HITS = {
-    'quick': {"chain": 454, "step_hardened": 347, "step_normal": 381, "step_path": 518, "pub_derive": 705, "pub_hardened_refused": 231, "corrupt": 6528, "odd_seed": 103},
+    'quick': {"chain": 502, "step_hardened": 371, "step_normal": 405, "step_path": 530, "pub_derive": 760, "pub_hardened_refused": 244, "corrupt": 6528, "odd_seed": 103},
     'thorough': {"chain": 23049, "step_hardened": 17694, "step_normal": 22686, "step_path": 26070, "pub_derive": 36252, "pub_hardened_refused": 10393, "corrupt": 920678, "odd_seed": 6936, "depth255": 9},
 }
 IDX = [0, 1, 2, 2**31 - 2, 2**31 - 1, 2**31, 2**31 + 1, 2**32 - 1]
@@ -63,6 +63,20 @@ def cases(ctx):
             # the same steps from another seed right afterwards, then from the first seed again (state keyed on the index / path only)
             yield {"k": "chain", "seed": gen.rbytes(r, 32).hex(), "steps": steps, "neuter_at": r.randrange(0, len(steps) + 1), "impl": False, "twin": True}
             yield {"k": "chain", "seed": seed.hex(), "steps": steps, "neuter_at": 0, "impl": False, "twin": True}
+    # children whose private key / chain code has leading zero bytes (searched with the reference from the seed 00 01 .. 1f: about one
+    # derivation in 65536), derived singly, by path, re-parsed and derived from further
+    if ctx.shard % 4 == 1 or t:
+        zseed = bytes(range(32)).hex()
+        for zi in (86312, 2147590301, 2147518707):
+            nxt = ridx(r)
+            yield {"k": "chain", "seed": zseed, "steps": [{"derive": zi}, {"reparse": True}, {"derive": nxt}], "neuter_at": 1 if zi < 2**31 else 3, "impl": False, "leadzero": True}
+            ps = "m/%d%s/%d%s" % (zi & 0x7FFFFFFF, "'" if zi >= 2**31 else "", nxt & 0x7FFFFFFF, "'" if nxt >= 2**31 else "")
+            yield {"k": "chain", "seed": zseed, "steps": [{"path": ps, "idxs": [zi, nxt]}], "neuter_at": 5, "impl": True, "leadzero": True}
+    # seeds that happen to be TEXT: only ASCII hex digits (even length, >= 32 bytes), only Base58 characters, printable ASCII
+    if ctx.shard % 4 == 2 or t:
+        for alphabet, ln in (("0123456789abcdef", 32), ("0123456789abcdef", 64), ("0123456789ABCDEF", 40), ("0123456789", 32), ("123456789ABCDEFGHJKLMNPQRSTUVWXYZabcdefghijkmnopqrstuvwxyz", 48), ("abcdefghijklmnopqrstuvwxyz ", 36)):
+            tseed = "".join(r.choice(alphabet) for _ in range(ln)).encode()
+            yield {"k": "chain", "seed": tseed.hex(), "steps": [{"derive": ridx(r)}], "neuter_at": 0, "impl": ln == 64, "text_seed": True}
     # the longest well-formed path text: 255 components, every one a ten-digit hardened index (also through the *_impl twins)
     if ctx.shard % 8 == 0 or t:
         seed = gen.rbytes(r, 32)
@@ -175,6 +189,10 @@ def judge(ctx, case):
             ctx.hit("longest_path_text")
         if case.get("twin"):
             ctx.hit("neighbour_sequence")
+        if case.get("leadzero"):
+            ctx.hit("child_with_leading_zero_bytes")
+        if case.get("text_seed"):
+            ctx.hit("seed_is_ascii_text")
         r = ctx.call({"op": "bip32", "start": {"seed": case["seed"]}, "steps": steps, "via_impl": vi}, watchdog=300)
         ctx.ev()
         if "ok" not in r:
